@@ -11,6 +11,7 @@ Arrays are functions on (flat, row-major) natural-number indices:
 Every definition follows one source line (cited); the scalar type only needs `+`, `*`, `0` and `conj`.
 -/
 import NumqiModel.PartialTrace
+import NumqiModel.Gellmann
 
 namespace Numqi
 namespace Channel
@@ -98,6 +99,74 @@ def amplitudeDampingKraus (c0 c1 : α) (s a i : Nat) : α :=
   | 0 => mat2 1 0 0 c0 a i
   | 1 => mat2 0 c1 0 0 a i
   | _ => 0
+
+/-! ### `choi_op_to_bloch_map` (`_internal.py:148-157`)
+
+`tmp0 = op.transpose(1,3,2,0).reshape(dout², din, din)`: `tmp0[(a,b)][j,i] = op[i,a,j,b]`;
+`tmp1 = matrix_to_gellmann_basis(tmp0)` (`dout² × din²`);
+`op_gm = matrix_to_gellmann_basis(tmp1.T.reshape(-1,dout,dout)).real.T` (`dout² × din²`);
+`matA = op_gm[:-1,:-1]*2`, `vecb = op_gm[:-1,-1]*sqrt(2/din)`.
+The Gell-Mann transforms are the model of property C16 (`Gellmann.analysis`, scalars `Sin` for `din`, `Sout` for `dout`). -/
+section bloch
+open Gellmann
+variable {α : Type} [Zero α] [One α] [Add α] [Sub α] [Neg α] [Mul α] [NatCast α] [Conj α]
+
+/-- `tmp1[(a,b), μ]` -/
+def blochTmp1 (Sin : Scalars α) (din dout : Nat) (C : Nat → Nat → α) (a b μ : Nat) : α :=
+  (analysis Sin din (fun j i : Fin din => C (i.val * dout + a) (j.val * dout + b))).getD μ 0
+
+/-- entry `(μ, ν)` of the second transform, before `.real.T` -/
+def blochX (Sout : Scalars α) (dout : Nat) (T : Nat → Nat → Nat → α) (μ ν : Nat) : α :=
+  (analysis Sout dout (fun a b : Fin dout => T a.val b.val μ)).getD ν 0
+
+/-- `op_gm[ν, μ]` -/
+def blochGm (Sin Sout : Scalars α) (din dout : Nat) (C : Nat → Nat → α) (ν μ : Nat) : α :=
+  re Sout (blochX Sout dout (blochTmp1 Sin din dout C) μ ν)
+
+/-- `matA[ν, μ]` -/
+def blochA (Sin Sout : Scalars α) (din dout : Nat) (C : Nat → Nat → α) (ν μ : Nat) : α :=
+  blochGm Sin Sout din dout C ν μ * (1 + 1)
+
+/-- `vecb[ν]` -/
+def blochB (Sin Sout : Scalars α) (din dout : Nat) (C : Nat → Nat → α) (ν : Nat) : α :=
+  blochGm Sin Sout din dout C ν (din * din - 1) * Sin.cI
+
+end bloch
+
+/-! ### entropy / fidelity / relative entropy on the spectrum (`utils.py:129-348`)
+
+Everything these functions do after the `eigvalsh` / `eigh` call, on eigenvalue lists.  For **commuting** (simultaneously
+diagonal) states this is the whole function: `EVC0† ρ1 EVC0` is diagonal with the eigenvalues `q` of `ρ1`.
+`Analytic` collects the three non-algebraic operations; it is instantiated by `Float` in the driver and by ℝ in the proofs. -/
+
+class Analytic (α : Type) where
+  log : α → α
+  sqrt : α → α
+  max : α → α → α
+
+section spectral
+variable {α : Type} [Zero α] [Add α] [Mul α] [Neg α] [Analytic α]
+
+def listSum (l : List α) : α := l.foldr (· + ·) 0
+
+/-- `get_von_neumann_entropy` (`utils.py:196-202`): `EVL = maximum(eigvalsh(rho), eps)`, `-Σ EVL·log EVL` -/
+def entropySpec (eps : α) (evl : List α) : α :=
+  -(listSum (evl.map fun x => Analytic.max x eps * Analytic.log (Analytic.max x eps)))
+
+/-- `get_fidelity` (`utils.py:164-168`) for commuting states with spectra `p`, `q` (same eigenbasis, same order):
+`tmp0 = sqrt(max(0,p))`, `tmp1 = diag(tmp0·q·tmp0)`, `(Σ sqrt(max(0, tmp1)))²` -/
+def fidelitySpec (p q : List α) : α :=
+  let s := listSum ((p.zip q).map fun pq =>
+    Analytic.sqrt (Analytic.max 0 (Analytic.sqrt (Analytic.max 0 pq.1) * pq.2 * Analytic.sqrt (Analytic.max 0 pq.1))))
+  s * s
+
+/-- `get_relative_entropy` (`utils.py:335-344`) for commuting states:
+`-Σ p·log(max(eps,q)) + Σ max(eps,p)·log(max(eps,p))` -/
+def relEntropySpec (eps : α) (p q : List α) : α :=
+  -(listSum ((p.zip q).map fun pq => pq.1 * Analytic.log (Analytic.max eps pq.2)))
+    + listSum (p.map fun x => Analytic.max eps x * Analytic.log (Analytic.max eps x))
+
+end spectral
 
 end Channel
 end Numqi
